@@ -67,6 +67,7 @@ type vfC26Case struct {
 	Lazy        bool       `json:"lazy"`  // repair reader started by the first Read instead of immediately
 	Attrs       bool       `json:"attrs"` // the repair interceptor hands out its own (non-nil) attributes
 	Pkts        []vfC26Pkt `json:"pkts"`
+	Switch      []int      `json:"switch,omitempty"` // cycled per burst: >0 = before that burst the primary stream moves on by that many entries of vfC26PTs (and one primary packet is read)
 	Bursts      []int      `json:"bursts,omitempty"` // sizes (1..8) of the groups fed back-to-back before any Read; cycled; empty = one at a time
 }
 
@@ -433,7 +434,28 @@ func vfC26Run(v *vfT, c vfC26Case) {
 	// order fed, and compared with its own original; one more Read must yield the primary
 	// stream's packet (nothing else was queued: short packets dropped, nothing delivered twice).
 	gi := 0
+	ptIdx := ((c.PrimaryPT % len(vfC26PTs)) + len(vfC26PTs)) % len(vfC26PTs)
+	rtxSeenBeforeSwitch, switched := false, false
 	for pi := 0; pi < len(c.Pkts); {
+		// The primary stream may change its payload type mid-stream (another negotiated codec); the
+		// track follows it (checkAndUpdateTrack) when the application reads that primary packet.
+		// From then on "the primary stream's payload type" is the new one.
+		if len(c.Switch) > 0 && c.Switch[gi%len(c.Switch)] > 0 {
+			ptIdx = (ptIdx + c.Switch[gi%len(c.Switch)]) % len(vfC26PTs)
+			if vfC26PTs[ptIdx] != primPT {
+				primPT = vfC26PTs[ptIdx]
+				if got, _ := readOne(); !isSentinel(got) {
+					v.Violation("C26/primary-read", "Read with no RTX packet queued did not return the primary stream's packet: %x", got)
+				}
+				if track.PayloadType() != PayloadType(primPT) {
+					v.Skip("track did not follow the primary stream's payload type change")
+				}
+				if rtxSeenBeforeSwitch {
+					switched = true
+				}
+				v.Label("primary-pt-switch")
+			}
+		}
 		size := 1
 		if len(c.Bursts) > 0 {
 			size = c.Bursts[gi%len(c.Bursts)]
@@ -482,6 +504,10 @@ func vfC26Run(v *vfT, c vfC26Case) {
 			}
 			got, attrs := readOne()
 			checkValid(pr, got, attrs)
+			if switched {
+				v.Label("rtx-after-primary-pt-switch(with-rtx-before)")
+			}
+			rtxSeenBeforeSwitch = true
 		}
 		if got, _ := readOne(); !isSentinel(got) {
 			last := group[len(group)-1]
@@ -561,6 +587,12 @@ func vfC26Gen(v *vfT) vfC26Case {
 	nb := rapid.IntRange(1, 4).Draw(v.R, "nbursts")
 	for i := 0; i < nb; i++ {
 		c.Bursts = append(c.Bursts, rapid.SampledFrom([]int{1, 2, 2, 3, 4, 5, 8}).Draw(v.R, "burst"))
+	}
+	if rapid.IntRange(0, 2).Draw(v.R, "switch?") != 0 {
+		ns := rapid.IntRange(1, 3).Draw(v.R, "nswitch")
+		for i := 0; i < ns; i++ {
+			c.Switch = append(c.Switch, rapid.SampledFrom([]int{0, 0, 1, 2, 3}).Draw(v.R, "switch"))
+		}
 	}
 	return c
 }
@@ -818,7 +850,7 @@ func TestVerif_C26_Unwrap(t *testing.T) {
 	vfProperty(t, "C26", vfOpts{
 		Rule: "non-trivial = at least one RTX packet with >=2 payload bytes and a CSRC list, header extension or padding was delivered by TrackRemote.Read and compared",
 		Assumptions: []string{
-			"the primary stream's payload type is known to the track (one primary packet is read first, as PeerConnection's own peek does)",
+			"the primary stream's payload type is known to the track (one primary packet is read first, as PeerConnection's own peek does); it may switch between default video codecs mid-stream, and after the application has read the primary packet carrying the new type (TrackRemote.PayloadType() reports it) unwrapped RTX packets must carry the new type",
 			"RTX packets are well-formed RTP (what SRTP decryption lets through) and fit the receive MTU; corrupt ones are fed without assertions",
 			"RTX packets arrive in bursts of 1..8 before the application reads (the 50-slot hand-over channel is empty before each burst, so the receiver never legitimately skips one); within a burst packets are read back in the order fed",
 			"padding filler octets are not significant; the padding count is",
